@@ -18,7 +18,15 @@
 //! passes meanwhile), instance B follows a fixed periodic trace (call, call, skip, call, call)
 //! with its own PT/PV; both instances are compared with the model on every call, and an instance
 //! that is not called in a cycle must keep every variable (hidden ones included) unchanged.
-//! Depth: quick 6 (PT-change family 5, ST CTUD 4), thorough 12 (PT-change 9, ST CTUD 10).
+//! Further timer families (both seams unless noted):
+//!   * `sub`: time steps that are not whole milliseconds, dt in {0, 0.4 ms, 1.5 ms} (A skipped:
+//!     0.4 ms), with PT in {0.4 ms, 1.5 ms (T#1500us), 2 ms (= 5 x 0.4 ms), 3 ms (= 2 x 1.5 ms)}, so
+//!     that only an exact (nanosecond) accumulation decides Q at the right call;
+//!   * `big`: dt in {0, 1 ms, 2^31 ms - 1 ms (= i32::MAX ms), 2^31 ms, 2^32 ms} with PT = 2^31 ms;
+//!   * ST seam: the LTIME flavour (TON_LTIME, TOF_LTIME, TP_LTIME) with PT = 3 ms on the
+//!     millisecond menu and PT in {1.5 ms, 2 ms} on the sub-millisecond menu.
+//! Depth: quick 6 (PT-change family 5, ST CTUD 4, big 4), thorough 12 (PT-change 9, ST CTUD 10,
+//! sub 10, big 6).
 //!
 //! Search: own BFS instead of `x2::bfs` — compiling the ST driver program costs 1.5 ms, so a
 //! state is replayed from scratch once (when it is expanded) and its successors are tried from a
@@ -32,11 +40,13 @@
 //!     explains all observations so far. With a constant PT the four readings coincide;
 //!   * ET is compared exactly only while the timer is timing (there it is the accumulated time);
 //!     otherwise only 0 <= ET <= PT; the value of ET after a reset / after the pulse is not checked;
+//!   * a TIME-typed ET at the ST seam may show the accumulated time rounded down to the TIME
+//!     resolution of 1 ms (docs/specs/10-runtime.md) instead of the exact value; Q must follow the
+//!     exactly accumulated time in any case. LTIME ETs and the pure structs are compared exactly;
 //!   * F_TRIG on the very first call with CLK = FALSE: Q may be either value (IEC body and
 //!     docs/specs/08 say TRUE, "exactly one call per edge" read literally says FALSE);
 //!   * time that passes before the first call of an instance is not "time between two calls".
-//! Not in the alphabet: typed counter variants (CTU_DINT, ... unsigned ones), LTIME timer variants,
-//! DIFU/DIFD aliases (the statement names only the ten base blocks).
+//! Not in the alphabet: typed counter variants (CTU_DINT, ... unsigned ones), DIFU/DIFD aliases (the statement names only the ten base blocks).
 
 use crate::fw::*;
 use crate::iso::WorkerFn;
@@ -53,6 +63,11 @@ const MS: i64 = 1_000_000;
 const TMAX: i64 = i64::MAX;
 const INT_MAX: i64 = 32767;
 const INT_MIN: i64 = -32768;
+/// sub-millisecond time steps / presets (ns)
+const US400: i64 = 400_000;
+const US1500: i64 = 1_500_000;
+/// 2^31 ms: the first time step that does not fit a signed 32-bit millisecond count
+const BIG: i64 = (1i64 << 31) * MS;
 /// period of instance B's fixed trace
 const B_PERIOD: usize = 5;
 
@@ -204,6 +219,8 @@ fn fmt_time(ns: i128) -> String {
         "max".to_string()
     } else if ns % MS as i128 == 0 {
         format!("{}ms", ns / MS as i128)
+    } else if ns % 100_000 == 0 && ns > 0 {
+        format!("{}.{}ms", ns / MS as i128, (ns % MS as i128) / 100_000)
     } else {
         format!("{ns}ns")
     }
@@ -257,13 +274,40 @@ struct Fam {
     no_b: bool,
     a_skip: bool,
     depth: usize,
+    /// ST seam, timers: use the LTIME flavour (TON_LTIME ...) instead of the TIME one
+    ltime: bool,
+    /// time steps of the "A not called in this cycle" events (ST seam)
+    skip_dts: Vec<i64>,
+    /// largest finite PT of the family (see `timer_step`)
+    limit: i128,
 }
 
 impl Fam {
+    /// block name as used in signatures and messages
+    fn kname(&self) -> String {
+        if self.ltime {
+            format!("{}_LTIME", self.kind.name())
+        } else {
+            self.kind.name().to_string()
+        }
+    }
+    /// Resolution to which the PUBLISHED ET may be rounded down without contradicting the
+    /// statement: docs/specs/10-runtime.md gives TIME a resolution of 1 ms, so at the ST seam a
+    /// TIME-typed ET that shows the accumulated time truncated to whole milliseconds is accepted
+    /// as well as the exact value (Q must follow the exact accumulated time in any case). LTIME
+    /// (ns) and the pure structs (plain Duration) are compared exactly.
+    fn et_res(&self) -> i128 {
+        if self.seam == Seam::St && self.kind.is_timer() && !self.ltime {
+            MS as i128
+        } else {
+            0
+        }
+    }
     fn json(&self) -> J {
         json!({
             "seam": self.seam.name(), "kind": self.kind.name(), "class": self.class,
             "family": self.label, "start_cv": self.start_cv, "b_n": self.b_n, "no_b": self.no_b,
+            "ltime": self.ltime, "limit": self.limit.min(i64::MAX as i128) as i64,
         })
     }
     fn from_json(j: &J) -> Option<Fam> {
@@ -283,23 +327,26 @@ impl Fam {
             no_b: j["no_b"].as_bool().unwrap_or(false),
             a_skip: false,
             depth: 0,
+            ltime: j["ltime"].as_bool().unwrap_or(false),
+            skip_dts: Vec::new(),
+            limit: match j["limit"].as_i64() {
+                Some(l) if l == i64::MAX => i128::MAX / 4,
+                Some(l) => l as i128,
+                None => (3 * MS) as i128,
+            },
         })
     }
-    /// largest finite PT of the family (no saturation in the extreme-dt families)
     fn limit(&self) -> i128 {
-        if self.class == "xdt" || !self.kind.is_timer() {
-            return i128::MAX / 4;
-        }
-        // `ns` is not recorded in replay files: use the fixed alphabet bound
-        (3 * MS) as i128
+        self.limit
     }
     fn menu(&self) -> Vec<Ev> {
         let nb = self.kind.nb();
         let mut v = Vec::new();
         for &dt in &self.dts {
-            // "A not called in this cycle" with dt in {0, 2 ms} (timers) / 0 (others): the time of
-            // the next call of A is pending + dt, so every total is still reached
-            if self.a_skip && (dt == 0 || dt == 2 * MS) {
+            // "A not called in this cycle" only with the time steps of `skip_dts` ({0, 2 ms} in the
+            // millisecond families): the time of the next call of A is pending + dt, so every
+            // total is still reached
+            if self.a_skip && self.skip_dts.contains(&dt) {
                 v.push(Ev { dt, a: None });
             }
             for bits in 0..(1u32 << nb) {
@@ -393,18 +440,21 @@ struct Cov {
     /// timers: Q expected by the model (first reading alive)
     exp_q_true: AtomicU64,
     exp_q_false: AtomicU64,
+    /// timer calls at which the accumulated time is not a whole number of milliseconds
+    sub_ms: AtomicU64,
 }
 
-const COV_NAMES: [&str; 19] = [
+const COV_NAMES: [&str; 20] = [
     "evals", "calls_compared", "q_true", "q_false", "acc_lands_exactly_on_pt", "acc_beyond_pt",
     "tp_rising_edge_during_pulse", "pt_changed_while_timing", "et_compared_exactly",
     "counter_at_max_and_count_up", "counter_at_min_and_count_down", "ctud_both_edges",
     "edge_detector_fires", "cycles_with_a_skipped", "independence_checks", "calls_after_skipped_cycles",
     "histories_replayed_from_scratch", "timer_calls_model_q_true", "timer_calls_model_q_false",
+    "timer_calls_with_sub_ms_accumulated_time",
 ];
 
 impl Cov {
-    fn values(&self) -> [u64; 19] {
+    fn values(&self) -> [u64; 20] {
         [
             self.evals.load(Relaxed),
             self.compared.load(Relaxed),
@@ -425,6 +475,7 @@ impl Cov {
             self.replays.load(Relaxed),
             self.exp_q_true.load(Relaxed),
             self.exp_q_false.load(Relaxed),
+            self.sub_ms.load(Relaxed),
         ]
     }
 }
@@ -668,11 +719,13 @@ struct Inst {
     prev: Option<(Inp, Obs)>,
     /// see `timer_step`
     limit: i128,
+    /// see `Fam::et_res`
+    et_res: i128,
 }
 
 impl Inst {
-    fn new(kind: Kind, start_cv: Option<i64>, limit: i128) -> Inst {
-        Inst { model: Model::new(kind, start_cv), called: false, pending: 0, prev: None, limit }
+    fn new(kind: Kind, start_cv: Option<i64>, limit: i128, et_res: i128) -> Inst {
+        Inst { model: Model::new(kind, start_cv), called: false, pending: 0, prev: None, limit, et_res }
     }
 }
 
@@ -682,6 +735,7 @@ fn check_timer(
     inp: &Inp,
     dt: i128,
     limit: i128,
+    et_res: i128,
     obs: &Obs,
     prev: Option<&(Inp, Obs)>,
     cov: Option<&Cov>,
@@ -719,6 +773,9 @@ fn check_timer(
         if p.edge_in_pulse {
             bump(cov, |c| &c.tp_edge_in_pulse);
         }
+        if p.acc % MS as i128 != 0 && p.acc != limit + 1 {
+            bump(cov, |c| &c.sub_ms);
+        }
         if p.et_exact.is_some() {
             bump(cov, |c| &c.et_exact_checked);
         }
@@ -731,7 +788,10 @@ fn check_timer(
         }
     }
     let ok = |p: &TPred| {
-        obs.q == p.q && et <= p.et_max && et >= 0 && p.et_exact.map_or(true, |e| e == et)
+        obs.q == p.q
+            && et <= p.et_max
+            && et >= 0
+            && p.et_exact.map_or(true, |e| e == et || (et_res > 0 && et == e - e % et_res))
     };
     if !preds.iter().any(|(_, _, p)| ok(p)) {
         let (r, _, p) = &preds[0];
@@ -854,11 +914,12 @@ impl Inst {
     /// Compares one call of the real block with the statement; updates the model.
     fn observe(&mut self, kind: Kind, inp: &Inp, dt: i128, obs: &Obs, cov: Option<&Cov>) -> Option<Mismatch> {
         let limit = self.limit;
+        let et_res = self.et_res;
         bump(cov, |c| &c.compared);
         bump(cov, |c| if obs.q { &c.q_true } else { &c.q_false });
         let prev = self.prev;
         let mm = match &mut self.model {
-            Model::Timer(vars) => check_timer(kind, vars, inp, dt, limit, obs, prev.as_ref(), cov),
+            Model::Timer(vars) => check_timer(kind, vars, inp, dt, limit, et_res, obs, prev.as_ref(), cov),
             Model::Ctu { cv, prev } => {
                 // docs/specs/08 §4: IF R THEN CV:=0 ELSIF CU(rising) AND CV<PVmax THEN CV+1; Q:=CV>=PV
                 let (cu, r, pv) = (inp.b[0], inp.b[1], inp.n);
@@ -1081,8 +1142,9 @@ impl PureFb {
     }
 }
 
-fn st_source(kind: Kind) -> String {
-    let ty = kind.name();
+fn st_source(kind: Kind, ltime: bool) -> String {
+    let ty = if ltime { format!("{}_LTIME", kind.name()) } else { kind.name().to_string() };
+    let tt = if ltime { "LTIME" } else { "TIME" };
     let mut vars = String::new();
     let mut body = String::new();
     for s in ["a", "b"] {
@@ -1090,7 +1152,7 @@ fn st_source(kind: Kind) -> String {
             "  f{s} : {ty};\n  call_{s} : BOOL;\n  x0_{s} : BOOL;\n  x1_{s} : BOOL;\n  x2_{s} : BOOL;\n  x3_{s} : BOOL;\n  q_{s} : BOOL;\n  q2_{s} : BOOL;\n"
         ));
         if kind.is_timer() {
-            vars.push_str(&format!("  pt_{s} : TIME;\n  et_{s} : TIME;\n"));
+            vars.push_str(&format!("  pt_{s} : {tt};\n  et_{s} : {tt};\n"));
         } else if kind.is_counter() {
             vars.push_str(&format!("  pv_{s} : INT;\n  cv_{s} : INT;\n"));
         }
@@ -1116,6 +1178,7 @@ struct StSeam {
     h: TestHarness,
     ids: [InstanceId; 2],
     kind: Kind,
+    ltime: bool,
 }
 
 enum Fail {
@@ -1126,8 +1189,8 @@ enum Fail {
 const AB: [&str; 2] = ["a", "b"];
 
 impl StSeam {
-    fn new(kind: Kind, start_cv: Option<i64>) -> Result<StSeam, String> {
-        let src = st_source(kind);
+    fn new(kind: Kind, ltime: bool, start_cv: Option<i64>) -> Result<StSeam, String> {
+        let src = st_source(kind, ltime);
         let h = catch(|| TestHarness::from_source(&src))
             .map_err(|p| format!("compiling the {} driver program panicked: {p}", kind.name()))?
             .map_err(|e| format!("the {} driver program does not compile: {e:?}\n{src}", kind.name()))?;
@@ -1138,7 +1201,7 @@ impl StSeam {
                 o => return Err(format!("f{} is not an instance: {o:?}", AB[w])),
             }
         }
-        let mut s = StSeam { h, ids, kind };
+        let mut s = StSeam { h, ids, kind, ltime };
         if let Some(cv) = start_cv {
             // a state reachable by |cv| count pulses, installed directly (DESIGN.md C04)
             s.h.runtime_mut().storage_mut().set_instance_var(s.ids[0], "CV", Value::Int(cv as i16));
@@ -1215,7 +1278,7 @@ impl Subject {
     /// because the block miscounts (a violation).
     fn new(f: &Fam) -> Result<(Subject, Option<String>), String> {
         match f.seam {
-            Seam::St => Ok((Subject::St(Box::new(StSeam::new(f.kind, f.start_cv)?)), None)),
+            Seam::St => Ok((Subject::St(Box::new(StSeam::new(f.kind, f.ltime, f.start_cv)?)), None)),
             Seam::Pure => {
                 let mut a = PureFb::new(f.kind);
                 let mut problem = None;
@@ -1271,7 +1334,8 @@ impl Subject {
                             s.h.set_input(&format!("x{k}_{n}"), Value::Bool(inp.b[k]));
                         }
                         if kind.is_timer() {
-                            s.h.set_input(&format!("pt_{n}"), Value::Time(Duration::from_nanos(inp.n)));
+                            let d = Duration::from_nanos(inp.n);
+                            s.h.set_input(&format!("pt_{n}"), if s.ltime { Value::LTime(d) } else { Value::Time(d) });
                         } else if kind.is_counter() {
                             s.h.set_input(&format!("pv_{n}"), Value::Int(inp.n as i16));
                         }
@@ -1384,7 +1448,7 @@ fn mk_violation(f: &Fam, hist: &[Ev], sig: String, text: &str) -> Violation {
         what: format!(
             "{} seam, {} [{}], call history {{{}}}: at the last step {text}",
             f.seam.name(),
-            f.kind.name(),
+            f.kname(),
             f.label,
             if hist.is_empty() { "set-up only".to_string() } else { render(f, hist) }
         ),
@@ -1396,7 +1460,7 @@ fn sig_of(f: &Fam, m: &Mismatch) -> String {
     if m.clause == "tp-retrigger" {
         return format!("C04/tp-retrigger/{}", f.seam.name());
     }
-    let mut s = format!("C04/{}/{}:{}", m.clause, f.seam.name(), f.kind.name());
+    let mut s = format!("C04/{}/{}:{}", m.clause, f.seam.name(), f.kname());
     if !m.feature.is_empty() {
         s.push('/');
         s.push_str(&m.feature);
@@ -1407,17 +1471,18 @@ fn sig_of(f: &Fam, m: &Mismatch) -> String {
 fn start(f: &Fam) -> Result<Run, StepErr> {
     let (subj, problem) = Subject::new(f).map_err(StepErr::Machinery)?;
     if let Some(p) = problem {
-        let sig = format!("C04/cv/{}:{}/{}/setup", f.seam.name(), f.kind.name(), f.class);
+        let sig = format!("C04/cv/{}:{}/{}/setup", f.seam.name(), f.kname(), f.class);
         return Err(StepErr::Viol(vec![(sig, p)]));
     }
     let limit = f.limit();
-    Ok(Run { subj, insts: [Inst::new(f.kind, f.start_cv, limit), Inst::new(f.kind, None, limit)] })
+    let res = f.et_res();
+    Ok(Run { subj, insts: [Inst::new(f.kind, f.start_cv, limit, res), Inst::new(f.kind, None, limit, res)] })
 }
 
 /// Step number `i` (0-based) of a history: `ev.dt` passes, A is called (or not), B follows its
 /// fixed trace; every call made is compared with the statement.
 fn step_once(f: &Fam, run: &mut Run, i: usize, ev: &Ev, cov: Option<&Cov>) -> Result<(), StepErr> {
-    let tag = format!("{}:{}/{}", f.seam.name(), f.kind.name(), f.class);
+    let tag = format!("{}:{}/{}", f.seam.name(), f.kname(), f.class);
     let inps = [ev.a, b_action(f, i)];
     let mut acts: [Option<(Inp, i64)>; 2] = [None, None];
     let mut dts = [0i128; 2];
@@ -1460,7 +1525,7 @@ fn step_once(f: &Fam, run: &mut Run, i: usize, ev: &Ev, cov: Option<&Cov>) -> Re
     let mut found: Found = Vec::new();
     for (w, var, detail) in &out.indep {
         found.push((
-            format!("C04/independence/{}:{}/{}", f.seam.name(), f.kind.name(), var),
+            format!("C04/independence/{}:{}/{}", f.seam.name(), f.kname(), var),
             format!("instance {} was not called but its state changed: {detail}", AB[*w].to_uppercase()),
         ));
     }
@@ -1735,52 +1800,112 @@ fn bfs(f: &Fam, menu: &[Ev], cov: &Cov, threads: usize, deadline: Instant) -> Bf
 fn families(tier: Tier) -> Vec<Fam> {
     let depth = tier.pick(6usize, 12usize);
     let dts: Vec<i64> = [0, 1, 2, 3, 5].iter().map(|d| d * MS).collect();
+    let no_limit = i128::MAX / 4;
     let mut v = Vec::new();
+    // template
+    let base = |seam: Seam, kind: Kind| Fam {
+        seam,
+        kind,
+        class: String::new(),
+        label: String::new(),
+        ns: vec![0],
+        dts: vec![0],
+        start_cv: None,
+        b_n: 0,
+        no_b: false,
+        a_skip: seam == Seam::St,
+        depth,
+        ltime: false,
+        skip_dts: vec![0],
+        limit: no_limit,
+    };
     for seam in [Seam::Pure, Seam::St] {
         let st = seam == Seam::St;
         for kind in [Kind::Ton, Kind::Tof, Kind::Tp] {
-            let fixed: [(&str, &str, Vec<i64>); 6] = [
-                ("fixed", "PT=2ms", vec![2 * MS]),
-                ("fixed", "PT=3ms", vec![3 * MS]),
-                ("fixed", "PT=0", vec![0]),
-                ("fixed", "PT=max", vec![TMAX]),
-                ("neg", "PT=-1ms", vec![-MS]),
-                ("change", "PT free per call in {0,2ms,3ms,max}", vec![0, 2 * MS, 3 * MS, TMAX]),
-            ];
-            for (class, label, ns) in fixed {
-                let b_n = if ns == vec![2 * MS] { 3 * MS } else { 2 * MS };
-                v.push(Fam {
-                    seam,
-                    kind,
+            // (flavour) TIME at both seams, LTIME additionally at the ST seam
+            for ltime in [false, true] {
+                if ltime && !st {
+                    continue;
+                }
+                let timer = |class: &str, label: &str, ns: Vec<i64>, dts: &[i64], skip: &[i64], b_n: i64, limit: i64, depth: usize| Fam {
                     class: class.into(),
                     label: label.into(),
                     ns,
-                    dts: dts.clone(),
-                    start_cv: None,
+                    dts: dts.to_vec(),
                     b_n,
-                    no_b: false,
-                    a_skip: st,
-                    depth: if class == "change" { tier.pick(5, 9) } else { depth },
-                });
-            }
-            if !st {
-                // extreme time steps; only at the pure seam: at the ST seam the harness clock
-                // itself (Runtime::advance_time, not an anchor of C04) is limited to i64::MAX ns
-                // in total, so accumulated times cannot exceed it there.
-                for (label, pt) in [("PT=3ms, dt in {0,1ms,max}", 3 * MS), ("PT=max, dt in {0,1ms,max}", TMAX)] {
-                    v.push(Fam {
-                        seam,
-                        kind,
-                        class: "xdt".into(),
-                        label: label.into(),
-                        ns: vec![pt],
-                        dts: vec![0, MS, TMAX],
-                        start_cv: None,
-                        b_n: 0,
-                        no_b: true,
-                        a_skip: false,
-                        depth: 4,
-                    });
+                    depth,
+                    ltime,
+                    skip_dts: skip.to_vec(),
+                    limit: limit as i128,
+                    ..base(seam, kind)
+                };
+                // whole-millisecond families (for LTIME only one of them: the code path differs
+                // from TIME only in how ET is published)
+                let fixed: Vec<(&str, &str, Vec<i64>)> = if ltime {
+                    vec![("fixed", "PT=3ms", vec![3 * MS])]
+                } else {
+                    vec![
+                        ("fixed", "PT=2ms", vec![2 * MS]),
+                        ("fixed", "PT=3ms", vec![3 * MS]),
+                        ("fixed", "PT=0", vec![0]),
+                        ("fixed", "PT=max", vec![TMAX]),
+                        ("neg", "PT=-1ms", vec![-MS]),
+                        ("change", "PT free per call in {0,2ms,3ms,max}", vec![0, 2 * MS, 3 * MS, TMAX]),
+                    ]
+                };
+                for (class, label, ns) in fixed {
+                    let b_n = if ns == vec![2 * MS] { 3 * MS } else { 2 * MS };
+                    let d = if class == "change" { tier.pick(5, 9) } else { depth };
+                    v.push(timer(class, label, ns, &dts, &[0, 2 * MS], b_n, 3 * MS, d));
+                }
+                // time steps that are not whole milliseconds (0.4 ms, 1.5 ms), with presets that
+                // only the exactly accumulated sub-millisecond parts reach: 5 x 0.4 ms = 2 ms,
+                // 2 x 1.5 ms = 3 ms, and presets with a sub-millisecond part themselves
+                // (T#1500us, T#400us). The model accumulates in nanoseconds.
+                let sub: Vec<(&str, i64)> = if ltime {
+                    vec![("PT=1.5ms", US1500), ("PT=2ms", 2 * MS)]
+                } else {
+                    vec![("PT=0.4ms", US400), ("PT=1.5ms", US1500), ("PT=2ms", 2 * MS), ("PT=3ms", 3 * MS)]
+                };
+                for (l, pt) in sub {
+                    let b_n = if pt == US1500 { 2 * MS } else { US1500 };
+                    v.push(timer(
+                        "sub",
+                        &format!("{l}, dt in {{0,0.4ms,1.5ms}}"),
+                        vec![pt],
+                        &[0, US400, US1500],
+                        &[US400],
+                        b_n,
+                        3 * MS,
+                        tier.pick(6, 10),
+                    ));
+                }
+                if !ltime {
+                    // time steps around 2^31 ms (24.8 days): i32::MAX ms, 2^31 ms, 2^32 ms, with a
+                    // preset of 2^31 ms (a millisecond count that does not fit 32 bits)
+                    v.push(timer(
+                        "big",
+                        "PT=2^31ms, dt in {0,1ms,2^31ms-1ms,2^31ms,2^32ms}",
+                        vec![BIG],
+                        &[0, MS, BIG - MS, BIG, 2 * BIG],
+                        &[BIG - MS],
+                        2 * MS,
+                        BIG,
+                        tier.pick(4, 6),
+                    ));
+                }
+                if !st {
+                    // extreme time steps; only at the pure seam: at the ST seam the harness clock
+                    // itself (Runtime::advance_time, not an anchor of C04) is limited to i64::MAX
+                    // ns in total, so accumulated times cannot exceed it there.
+                    for (label, pt) in [("PT=3ms, dt in {0,1ms,max}", 3 * MS), ("PT=max, dt in {0,1ms,max}", TMAX)] {
+                        v.push(Fam {
+                            no_b: true,
+                            a_skip: false,
+                            limit: no_limit,
+                            ..timer("xdt", label, vec![pt], &[0, MS, TMAX], &[], 0, 0, 4)
+                        });
+                    }
                 }
             }
         }
@@ -1792,37 +1917,21 @@ fn families(tier: Tier) -> Vec<Fam> {
             };
             for (class, start_cv) in starts {
                 v.push(Fam {
-                    seam,
-                    kind,
                     class: class.into(),
                     label: match start_cv {
                         Some(c) => format!("start CV={c}, PV free per call in {{-1,0,1,2,32767}}"),
                         None => "PV free per call in {-1,0,1,2,32767}".into(),
                     },
                     ns: vec![-1, 0, 1, 2, INT_MAX],
-                    dts: vec![0],
                     start_cv,
                     b_n: 1,
-                    no_b: false,
-                    a_skip: st,
                     depth: if kind == Kind::Ctud && st { tier.pick(4, 10) } else { depth },
+                    ..base(seam, kind)
                 });
             }
         }
         for kind in [Kind::RTrig, Kind::FTrig, Kind::Sr, Kind::Rs] {
-            v.push(Fam {
-                seam,
-                kind,
-                class: "all".into(),
-                label: "all input combinations".into(),
-                ns: vec![0],
-                dts: vec![0],
-                start_cv: None,
-                b_n: 0,
-                no_b: false,
-                a_skip: st,
-                depth,
-            });
+            v.push(Fam { class: "all".into(), label: "all input combinations".into(), ..base(seam, kind) });
         }
     }
     // cheap families first, so that a wall cap can only cut the big PT-change families
@@ -1838,13 +1947,16 @@ fn vacuity(f: &Fam, c: &Cov) -> Option<String> {
         missing.push(need(&c.exp_q_true, "a call where the model gives Q=TRUE"));
         missing.push(need(&c.exp_q_false, "a call where the model gives Q=FALSE"));
     }
-    if f.kind.is_timer() && (f.label == "PT=2ms" || f.label == "PT=3ms" || f.class == "change") {
+    if f.kind.is_timer() && (f.label == "PT=2ms" || f.label == "PT=3ms" || f.class == "change" || f.class == "sub" || f.class == "big") {
         missing.push(need(&c.exact_pt, "accumulated time landing exactly on PT"));
         missing.push(need(&c.beyond_pt, "accumulated time beyond PT"));
         missing.push(need(&c.et_exact_checked, "an exact ET comparison"));
         if f.kind == Kind::Tp {
             missing.push(need(&c.tp_edge_in_pulse, "a rising edge during a TP pulse"));
         }
+    }
+    if f.class == "sub" {
+        missing.push(need(&c.sub_ms, "an accumulated time with a sub-millisecond part"));
     }
     if f.class == "change" {
         missing.push(need(&c.pt_changed_timing, "a PT change while timing"));
@@ -1878,7 +1990,7 @@ pub fn run(ctx: &Ctx) -> EngineResult {
     rep.max_samples = 8;
     let deadline = Instant::now() + WallDuration::from_secs(ctx.tier.pick(38, 840));
     let fams = families(ctx.tier);
-    let mut total = [0u64; 19];
+    let mut total = [0u64; 20];
     let (mut states, mut transitions) = (0u64, 0u64);
     let mut per_family = Vec::new();
     let mut exhaustive = true;
@@ -1889,7 +2001,7 @@ pub fn run(ctx: &Ctx) -> EngineResult {
         let menu = f.menu();
         let cov = Cov::default();
         let out = bfs(f, &menu, &cov, ctx.threads, deadline);
-        let tag = format!("{} {} [{}]", f.seam.name(), f.kind.name(), f.label);
+        let tag = format!("{} {} [{}]", f.seam.name(), f.kname(), f.label);
         if let Some(m) = out.machinery {
             return machinery(format!("{tag}: {m}"));
         }
@@ -1913,7 +2025,7 @@ pub fn run(ctx: &Ctx) -> EngineResult {
             return machinery(format!("{tag} is vacuous: {v}"));
         }
         min_depth = min_depth.min(out.depth_completed);
-        kinds_seen.insert((f.seam.name(), f.kind.name()));
+        kinds_seen.insert((f.seam.name(), f.kname()));
         if let Some(h) = &out.sample {
             if f.label == "PT=3ms" && f.kind != Kind::Tof || f.class == "near-max" && f.kind == Kind::Ctud {
                 rep.sample(json!({"seam": f.seam.name(), "kind": f.kind.name(), "family": f.label, "history": render(f, h)}));
@@ -1928,7 +2040,7 @@ pub fn run(ctx: &Ctx) -> EngineResult {
         eprintln!(
             "[C04] {:4} {:6} {:36.36} ev {:3} states {:6} trans {:8} depth {:2}/{:2} viol {:5} {:5.1}s (t={:.0}s)",
             f.seam.name(),
-            f.kind.name(),
+            f.kname(),
             f.label,
             menu.len(),
             out.states,
@@ -1940,8 +2052,8 @@ pub fn run(ctx: &Ctx) -> EngineResult {
             ctx.elapsed()
         );
     }
-    if kinds_seen.len() != 20 {
-        return machinery(format!("only {} of 20 (seam, kind) pairs were explored", kinds_seen.len()));
+    if kinds_seen.len() != 23 {
+        return machinery(format!("only {} of 23 (seam, block) pairs were explored", kinds_seen.len()));
     }
     rep.set("states", states);
     rep.set("transitions", transitions);
